@@ -7,7 +7,9 @@ import sys
 
 
 def main():
-    import sim  # noqa: F401
+    import sim
+
+    sim.pin_to_one_cpu()
 
     modname, fn = sys.argv[1], sys.argv[2]
     arg = json.loads(sys.stdin.read())
